@@ -289,6 +289,13 @@ class Ctx:
         cmd = ["go", "test", "-c", "-vet=off", "-tags", tags, "-overlay", self.overlay_json(only), "-o", out]
         if race:
             cmd.append("-race")
+        if os.environ.get("VERIF_COVER"):
+            # measurement only (tools/mutsweep.py): which lines of /repo does this harness execute
+            pk = []
+            for md in ("", "estargz", "cmd"):
+                rc_, o_ = sh(["go", "list", "./..."], cwd=os.path.join(REPO, md), env=go_env(), timeout=600)
+                pk += [l for l in o_.split() if l.startswith("github.com/containerd/stargz-snapshotter")]
+            cmd += ["-cover", "-coverpkg=" + ",".join(sorted(set(pk)))]
         cmd.append("./" + pkg)
         cwd = os.path.join(REPO, module_dir)
         t = time.time()
@@ -311,9 +318,13 @@ class Ctx:
         e["VERIF_WORK"] = self.workdir
         if env:
             e.update({k: str(v) for k, v in env.items()})
+        argv = [binary, "-test.run", f"^{test}$", "-test.count=1", "-test.timeout", f"{timeout}s"]
+        if os.environ.get("VERIF_COVER"):
+            os.makedirs(os.environ["VERIF_COVER"], exist_ok=True)
+            argv.append("-test.coverprofile=" + os.path.join(
+                os.environ["VERIF_COVER"], f"{self.pid}-{tag}-{int(time.time()*1000)}.out"))
         try:
-            rc, o = sh([binary, "-test.run", f"^{test}$", "-test.count=1", "-test.timeout", f"{timeout}s"],
-                       env=e, timeout=timeout + 60, cwd=cwd or self.workdir)
+            rc, o = sh(argv, env=e, timeout=timeout + 60, cwd=cwd or self.workdir)
         except subprocess.TimeoutExpired:
             rc, o = 124, "timeout"
         rep = {}
